@@ -30,3 +30,13 @@ CONTRACTS[F + "get_transport_plan"] = dict(
                                  "forall(0, j, lambda b: " + _CELL.format(i="i", j="b") + ")"]),
     },
 )
+
+# row-wise L2 normalisation in place (C10 memory safety; C12: row i is computed from row i only - zero rows are left alone)
+CONTRACTS["vectorizers/linear_optimal_transport.py::l2_normalize"] = dict(
+    params=dict(vectors="real[,]"),
+    requires=[],
+    modifies=["vectors"],
+    returns="none",
+    ensures=["vectors.shape[0] == old(vectors.shape[0]) and vectors.shape[1] == old(vectors.shape[1])"],
+    loops={"for#1": dict(invariant=["True"]), "for#2": dict(invariant=["norm >= 0"]), "for#3": dict(invariant=["True"])},
+)
